@@ -814,7 +814,7 @@ func scenarios(thorough bool) []*dialerh.Scenario {
 						switch {
 						case n == 1 && init != pMin && init != pRnd:
 							d--
-						case n == 2 && !(tol > 0 && (init == pMin || init == pMov)):
+						case n == 2 && tol == 0:
 							d--
 						case n == 3 && tol == 0:
 							d--
@@ -839,8 +839,8 @@ func scenarios(thorough bool) []*dialerh.Scenario {
 	for _, n := range F.famN {
 		for _, init := range []pol{pMin, pRnd} {
 			d := F.famDepth[n]
-			if (init == pRnd && n >= 2) || (thorough && n == 3 && init == pMin) {
-				d-- // random: every RNG outcome is executed per selection; n=3: 27 events per level
+			if init == pRnd && n >= 2 {
+				d-- // random: every RNG outcome is executed per selection: one level less for the same cost
 			}
 			add("fam", n, -1, 0, init, []dom{
 				{DAT4, nil, kill}, {DNS4, nil, kill}, {TCP4, nil, kill},
@@ -872,7 +872,7 @@ type sizes struct {
 func famSizes(thorough bool) sizes {
 	if !thorough {
 		return sizes{
-			latN: []int{1, 2}, latDepth: map[int]int{1: 4, 2: 3},
+			latN: []int{1, 2}, latDepth: map[int]int{1: 3, 2: 3},
 			chainN: []int{1, 2}, chainDepth: map[int]int{1: 3, 2: 3},
 			famN: []int{1, 2}, famDepth: map[int]int{1: 4, 2: 4},
 			tcp46N: []int{2}, tcp46Depth: map[int]int{2: 3},
@@ -883,7 +883,7 @@ func famSizes(thorough bool) sizes {
 		latN: []int{1, 2, 3}, latDepth: map[int]int{1: 5, 2: 4, 3: 3},
 		chainN: []int{2, 3}, chainDepth: map[int]int{2: 4, 3: 3},
 		famN: []int{2, 3}, famDepth: map[int]int{2: 5, 3: 4},
-		tcp46N: []int{2, 3}, tcp46Depth: map[int]int{2: 4, 3: 3},
+		tcp46N: []int{2, 3}, tcp46Depth: map[int]int{2: 4, 3: 4},
 		swapN: []int{3}, swapDepth: map[int]int{3: 6},
 	}
 }
